@@ -19,7 +19,9 @@ RULE = (ec.RULE + " || document families (harness/drivers/engine_cases_docs.py):
 
 
 def cases(rng, tier):
-    return ec.gen_cases(rng, tier) + engine_cases_docs.gen(rng, tier)
+    cs = ec.gen_cases(rng, tier) + engine_cases_docs.gen(rng, tier)
+    k = int(os.environ.get("VERIF_DOCS_SUB", "1"))      # development aid: every k-th case only (break-edit trials)
+    return cs[::k] if k > 1 else cs
 
 
 _MEMO = {}
